@@ -234,6 +234,7 @@ theorem doRegister_inv (c : Ctx) (U : List Nat) (hn : U.Nodup) (s s' : St) (fr :
   have hpf : c.p.pool ≠ fr := Ne.symm hfp
   unfold doRegister at h
   simp only at h
+  split at h; · cases h
   split at h
   · -- first registration (also: again, from the blank-flag state)
     split at h; · cases h
@@ -508,5 +509,68 @@ theorem mineBlock_inv (c : Ctx) (U : List Nat) (hn : U.Nodup) (s : St) (gp : Nat
   unfold mineBlock
   simp only
   exact finalize_inv c U hn _ _ addrs (chargeForGas_inv _ _ _ _ _ h1 h2) hr
+
+/-! ### when does the refund loop panic? (order independence of the panic) -/
+
+/-- all listed accounts have a (non-negative) deposit record and are not the pool -/
+def RefundListOk (c : Ctx) (s : St) (l : List Nat) : Prop :=
+  l.Nodup ∧ ∀ a ∈ l, a ≠ c.p.pool ∧ ∃ d, (s.accts a).deposit = some d ∧ 0 ≤ d
+
+theorem refund_pool_bal (c : Ctx) (s : St) (a : Nat) (d : Int) (hd : (s.accts a).deposit = some d) (hap : a ≠ c.p.pool) :
+    ((refund c s a).accts c.p.pool).bal = (s.accts c.p.pool).bal - d := by
+  rw [refund_accts c s a d hd]; unfold refundAcct; simp [Ne.symm hap]
+
+/-- **refundPanics_iff**: for a duplicate-free refund list of accounts with recorded non-negative deposits, `Finalize`
+    panics in the refund loop iff the pool does not cover the SUM of the listed deposits — whatever the order. -/
+theorem refundPanics_iff (c : Ctx) : ∀ (l : List Nat) (s : St), RefundListOk c s l → 0 ≤ (s.accts c.p.pool).bal →
+    refundPanics c s l = decide ((s.accts c.p.pool).bal < sumDep s l) := by
+  intro l
+  induction l with
+  | nil => intro s _ hp; simp [refundPanics, sumDep]; exact hp
+  | cons a as ih =>
+    intro s ⟨hnd, hall⟩ hp0
+    obtain ⟨hna, hnd'⟩ := List.nodup_cons.mp hnd
+    obtain ⟨hap, d, hd, hd0⟩ := hall a List.mem_cons_self
+    have hok' : RefundListOk c (refund c s a) as := by
+      refine ⟨hnd', fun x hx => ?_⟩
+      obtain ⟨hxp, dx, hdx, hdx0⟩ := hall x (List.mem_cons_of_mem _ hx)
+      have hxa : x ≠ a := fun e => hna (e ▸ hx)
+      exact ⟨hxp, dx, by rw [refund_deposit_other c s a x hxa]; exact hdx, hdx0⟩
+    have hsum : sumDep (refund c s a) as = sumDep s as := by
+      apply sumDep_congr
+      intro x hx
+      have hxa : x ≠ a := fun e => hna (e ▸ hx)
+      unfold depOf; rw [refund_deposit_other c s a x hxa]
+    have hnn : 0 ≤ sumDep s as := by
+      unfold sumDep
+      apply sum_nonneg
+      intro x hx
+      obtain ⟨_, dx, hdx, hdx0⟩ := hall x (List.mem_cons_of_mem _ hx)
+      unfold depOf; rw [hdx]; exact hdx0
+    simp only [refundPanics, hd]
+    have hda : depOf (s.accts a) = d := by unfold depOf; rw [hd]; rfl
+    rw [sumDep_cons, hda]
+    by_cases h1 : (s.accts c.p.pool).bal < d
+    · have : (s.accts c.p.pool).bal < d + sumDep s as := by omega
+      simp [h1, this]
+    · rw [ih _ hok' (by rw [refund_pool_bal c s a d hd hap]; omega), hsum, refund_pool_bal c s a d hd hap]
+      by_cases h2 : (s.accts c.p.pool).bal - d < sumDep s as
+      · have : (s.accts c.p.pool).bal < d + sumDep s as := by omega
+        simp [h1, h2, this]
+      · have : ¬ (s.accts c.p.pool).bal < d + sumDep s as := by omega
+        simp [h1, h2, this]
+
+theorem sumDep_perm (s : St) (l1 l2 : List Nat) (h : l1.Perm l2) : sumDep s l1 = sumDep s l2 := by
+  induction h with
+  | nil => rfl
+  | cons x _ ih => rw [sumDep_cons, sumDep_cons, ih]
+  | swap x y l => rw [sumDep_cons, sumDep_cons, sumDep_cons, sumDep_cons]; omega
+  | trans _ _ ih1 ih2 => rw [ih1, ih2]
+
+/-- **refundPanics_perm**: whether the refund loop panics does not depend on the order of the list either -/
+theorem refundPanics_perm (c : Ctx) (s : St) (l1 l2 : List Nat) (h : l1.Perm l2) (hok : RefundListOk c s l1)
+    (hp : 0 ≤ (s.accts c.p.pool).bal) : refundPanics c s l1 = refundPanics c s l2 := by
+  have hok2 : RefundListOk c s l2 := ⟨h.nodup_iff.mp hok.1, fun a ha => hok.2 a (h.mem_iff.mpr ha)⟩
+  rw [refundPanics_iff c l1 s hok hp, refundPanics_iff c l2 s hok2 hp, sumDep_perm s l1 l2 h]
 
 end LemoProofs.LedgerNonNeg
